@@ -3,6 +3,8 @@ import FimVerif.Proofs.Lemmas.C12Add
 import FimVerif.Proofs.Lemmas.C12Pools
 import FimVerif.Proofs.Lemmas.C12Details
 import FimVerif.Proofs.Lemmas.C12Hist
+import FimVerif.Proofs.Lemmas.C12Annotate
+import FimVerif.Proofs.Lemmas.C12Single
 /-!
 # C12 — delegations and pools survive encoding and regrouping unchanged
 
@@ -556,6 +558,215 @@ def famU : List (Pool Det) :=
   [{ ty := .cap, pid := singlePoolName, deleg := some "del1", on_ := some "node1", for_ := ["node2"], details := some capEx }]
 example : buildPools .cap famU = .error .pool := rfl
 
+/-! ## Onto the model and back: `annotate_delegations_and_pools` / `get_delegations`
+
+`SubstrateTopology.single_delegation` hands `annotate_delegations_and_pools` the pools and, for every element that has
+capacities / labels of its own, a `Delegations` holding one single-resource delegation; the method writes `to_json()` of
+every node's `Delegations` as the node's delegations property, `get_delegations` reads a node back with `from_json`. -/
+
+/-- the nodes `generate_delegations_by_node_id` produces dictionaries for are defining / reference nodes of the pools -/
+theorem generate_nodes (ops : DetailOps D) (ty : DType) (P : List (Pool D)) (hF : Family ops ty P) (ps : Pools D)
+    (R : NodeDelegs D) (hb : buildPools ty P = .ok ps) (hg : generate ops ps = .ok R) :
+    ∀ b ∈ R, ∃ p ∈ P, some b.1 = p.on_ ∨ b.1 ∈ p.for_ := by
+  obtain ⟨idx, hb', hperm, hk⟩ := buildPools_ok ops ty P hF
+  rw [hb] at hb'; injection hb' with hb'; subst hb'
+  have hok : ∀ p ∈ flatIdx idx, PoolOk ops ty p := fun p hp => hF.ok p (hperm.mem_iff.mp hp)
+  simp only [generate] at hg
+  rw [generate_flat ops ty idx [] hk hok] at hg
+  intro b hb
+  rcases addAt_fold_nodes ty _ [] R hg b hb with ⟨e, he, heb⟩ | ⟨b0, hb0, _⟩
+  · obtain ⟨p, hp, h | ⟨n, hn, h⟩⟩ := (mem_allEntries ty _ e).mp he
+    · refine ⟨p, hperm.mem_iff.mp hp, Or.inl ?_⟩
+      rw [← heb, h]
+      cases hon : p.on_ with
+      | none => exact absurd hon (hok p hp).on_
+      | some n => rfl
+    · exact ⟨p, hperm.mem_iff.mp hp, Or.inr (by rw [← heb, h]; exact hn)⟩
+  · cases hb0
+
+/-- writing well-formed dictionaries and reading them back gives the same dictionaries -/
+theorem write_read (ops : DetailOps D) (ty : DType) (L : NodeDelegs D) (hty : ∀ e ∈ L, e.2.ty = ty)
+    (hwf : ∀ e ∈ L, WF ops e.2) :
+    ∃ w, L.mapM (writeNode ops) = .ok w ∧ readAll ops ty w = .ok L := by
+  induction L with
+  | nil => exact ⟨[], rfl, rfl⟩
+  | cons e L ih =>
+    obtain ⟨w, hw, hr⟩ := ih (fun x hx => hty x (by simp [hx])) (fun x hx => hwf x (by simp [hx]))
+    have h := delegations_roundtrip ops e.2 (hwf e (by simp))
+    rw [hty e (by simp)] at h
+    cases hj : encode ops e.2 with
+    | error err => simp [hj, Except.bind] at h
+    | ok j =>
+      simp only [hj, Except.bind] at h
+      have h1 : writeNode ops e = .ok (e.1, j) := by simp [writeNode, hj, bind, Except.bind, pure, Except.pure]
+      have h2 : readNode ops ty (e.1, j) = .ok e := by simp [readNode, h, bind, Except.bind, pure, Except.pure]
+      refine ⟨(e.1, j) :: w, ?_, ?_⟩
+      · rw [List.mapM_cons, h1, hw]; rfl
+      · unfold readAll at hr ⊢
+        rw [List.mapM_cons, h2, hr]; rfl
+
+/-- what `single_delegation` hands over: per node (each node once, none of them a defining / reference node of a pool) a
+`Delegations` of the pools' type that holds single-resource delegations only -/
+structure SinglesOk (ty : DType) (P : List (Pool D)) (dels : NodeDelegs D) : Prop where
+  ty_ : ∀ e ∈ dels, e.2.ty = ty
+  single : ∀ e ∈ dels, ∀ d ∈ e.2.items, d.fmt = .single
+  nodes : dels.Pairwise (fun a b => a.1 ≠ b.1)
+  apart : ∀ e ∈ dels, ∀ p ∈ P, some e.1 ≠ p.on_ ∧ e.1 ∉ p.for_
+
+/-- **pools and single-resource delegations written onto a model and read back**: for every valid clash-free family
+(details surviving their codec) and single-resource delegations on other nodes, `annotate_delegations_and_pools` succeeds
+and writes, under the property of the pools' type, texts from which `get_delegations` returns for every node exactly the
+`Delegations` it was given - the generated pool entries `R` and each element's own single-resource delegation - and
+incorporating what was read, the nodes in any order, reconstructs the same pools (single-resource delegations are ignored) -/
+theorem annotate_readback (ops : DetailOps D) (ty : DType) (P : List (Pool D)) (dels : NodeDelegs D)
+    (hF : Family ops ty P) (hN : NoClash P) (hT : ∀ p ∈ P, DetOk ops ty p.details) (hS : SinglesOk ty P dels)
+    (hW : ∀ e ∈ dels, WF ops e.2) :
+    ∃ ps R w, buildPools ty P = .ok ps ∧ generate ops ps = .ok R ∧ annotate ops ps dels = .ok (ty, w) ∧
+      readAll ops ty w = .ok (R ++ dels) ∧
+      ∀ R', R'.Perm (R ++ dels) → ∃ Q, incorporateAll (emptyPools ty) R' = .ok Q ∧ Q.ty = ty ∧ SamePools P Q.byId := by
+  obtain ⟨ps, R, hb, hbyid, hg, hinv, hperm⟩ := generate_ok_of_noClash ops ty P hF hN
+  have hpty : ps.ty = ty := by
+    obtain ⟨idx, hb', _, _⟩ := buildPools_ok ops ty P hF
+    rw [hb] at hb'; injection hb' with hb'; rw [hb']
+  have hnodes := generate_nodes ops ty P hF ps R hb hg
+  have hmerge : mergeSingles R dels = .ok (R ++ dels) := by
+    apply mergeSingles_ok R dels ?_ hS.nodes
+    intro e he b hb' hbe
+    obtain ⟨p, hp, h | h⟩ := hnodes b hb'
+    · exact (hS.apart e he p hp).1 (by rw [← hbe]; exact h)
+    · exact (hS.apart e he p hp).2 (by rw [← hbe]; exact h)
+  have hwfR := generated_wf ops ty P R hF hT hinv (fun e he => hperm.mem_iff.mp he)
+  have hwf : ∀ e ∈ R ++ dels, WF ops e.2 := fun e he =>
+    (List.mem_append.mp he).elim (hwfR e) (hW e)
+  have htyA : ∀ e ∈ R ++ dels, e.2.ty = ty := fun e he =>
+    (List.mem_append.mp he).elim (hinv.ty_ e) (hS.ty_ e)
+  obtain ⟨w, hw, hr⟩ := write_read ops ty (R ++ dels) htyA hwf
+  refine ⟨ps, R, w, hb, hg, ?_, hr, fun R' hR' => ?_⟩
+  · simp only [annotate, hg, hmerge, hw, hpty, bind, Except.bind, pure, Except.pure]
+  · apply incorporate_with_singles ops ty P R' hF hN (fun e he => htyA e (hR'.mem_iff.mp he))
+    have h1 : ((flat R').filter nonSingle).Perm ((flat (R ++ dels)).filter nonSingle) := (flat_perm hR').filter _
+    have h2 : (flat (R ++ dels)).filter nonSingle = flat R := by
+      rw [flat_append, List.filter_append, filter_flat_singles dels hS.single, List.append_nil]
+      exact List.filter_eq_self.mpr (fun e he => nonSingle_allEntries ty P e (hperm.mem_iff.mp he))
+    rw [h2] at h1
+    exact h1.trans hperm
+
+/-- … and a node cannot carry both: single-resource delegations for a node that has pool entries are refused
+(`PropertyGraphQueryException`), nothing is written -/
+theorem annotate_rejects_shared_node (ops : DetailOps D) (ps : Pools D) (R dels : NodeDelegs D)
+    (hg : generate ops ps = .ok R) (e : String × Delegations D) (he : e ∈ dels) (b : String × Delegations D) (hb : b ∈ R)
+    (hbe : b.1 = e.1) : annotate ops ps dels = .error .query := by
+  simp only [annotate, hg, mergeSingles_clash R dels e he b hb hbe, bind, Except.bind]
+
+/-! ### `SubstrateTopology.single_delegation` -/
+
+/-- the elements of a topology as `single_delegation` needs them for delegation type `ty`: distinct node ids; whatever an
+element has as capacities / labels of its own is of the right kind, not empty and survives its codec; an element that gets
+a single-resource delegation is not a defining / reference node of a pool -/
+structure ElemsOk (ops : DetailOps D) (ty : DType) (P : List (Pool D)) (elems : List (Elem D)) : Prop where
+  nodes : (elems.map (·.node)).Nodup
+  own : ∀ e ∈ elems, ∀ x, e.own ty = some x → DetOk ops ty (some x)
+  apart : ∀ e ∈ elems, e.stitch = false → (e.own ty).isSome → ∀ p ∈ P, some e.node ≠ p.on_ ∧ e.node ∉ p.for_
+
+/-- **`single_delegation` for one delegation type, written and read back**: every element that is not a stitch node and has
+capacities / labels of its own gets exactly one single-resource delegation under the delegation id carrying those details
+(`collected`), the pools get their definition / reference entries, all of it is written, `get_delegations` returns for every
+node exactly what was written for it, and incorporating what was read (nodes in any order) reconstructs the pools -/
+theorem single_delegation_readback (ops : DetailOps D) (ty : DType) (did : String) (P : List (Pool D)) (elems : List (Elem D))
+    (hF : Family ops ty P) (hN : NoClash P) (hT : ∀ p ∈ P, DetOk ops ty p.details) (hE : ElemsOk ops ty P elems) :
+    ∃ ps R w, buildPools ty P = .ok ps ∧ generate ops ps = .ok R ∧
+      singlesOf ops ty did elems = .ok (elems.filterMap (collected ty did)) ∧
+      annotate ops ps (elems.filterMap (collected ty did)) = .ok (ty, w) ∧
+      readAll ops ty w = .ok (R ++ elems.filterMap (collected ty did)) ∧
+      ∀ R', R'.Perm (R ++ elems.filterMap (collected ty did)) →
+        ∃ Q, incorporateAll (emptyPools ty) R' = .ok Q ∧ Q.ty = ty ∧ SamePools P Q.byId := by
+  have hk : ∀ e ∈ elems, ∀ x, e.own ty = some x → ops.kindOf x = ty := fun e he x hx => (hE.own e he x hx).1
+  have hs := singlesOf_spec ops ty did elems hE.nodes hk
+  have hS : SinglesOk ty P (elems.filterMap (collected ty did)) := by
+    refine ⟨?_, ?_, collected_nodes_pairwise ty did elems hE.nodes, ?_⟩
+    · intro p hp
+      obtain ⟨e, _, _, x, _, rfl⟩ := mem_collected ty did elems p hp
+      rfl
+    · intro p hp d hd
+      obtain ⟨e, _, _, x, _, rfl⟩ := mem_collected ty did elems p hp
+      simp only [singleOf, List.mem_singleton] at hd
+      subst hd; rfl
+    · intro p hp q hq
+      obtain ⟨e, he, hst, x, hx, rfl⟩ := mem_collected ty did elems p hp
+      exact hE.apart e he hst (by simp [hx]) q hq
+  have hW : ∀ p ∈ elems.filterMap (collected ty did), WF ops p.2 := by
+    intro p hp
+    obtain ⟨e, he, _, x, hx, rfl⟩ := mem_collected ty did elems p hp
+    refine ⟨fun d hd => ?_, by simp [singleOf]⟩
+    simp only [singleOf, List.mem_singleton] at hd
+    subst hd
+    exact ⟨rfl, rfl, hE.own e he x hx⟩
+  obtain ⟨ps, R, w, hb, hg, ha, hr, hall⟩ := annotate_readback ops ty P _ hF hN hT hS hW
+  exact ⟨ps, R, w, hb, hg, hs, ha, hr, hall⟩
+
+/-- **the whole of `single_delegation`** (capacities, then labels): both passes succeed and write what
+`single_delegation_readback` describes, each under the property of its own type -/
+theorem single_delegation_both (ops : DetailOps D) (did : String) (Pc Pl : List (Pool D)) (elems : List (Elem D))
+    (hFc : Family ops .cap Pc) (hNc : NoClash Pc) (hTc : ∀ p ∈ Pc, DetOk ops .cap p.details) (hEc : ElemsOk ops .cap Pc elems)
+    (hFl : Family ops .lab Pl) (hNl : NoClash Pl) (hTl : ∀ p ∈ Pl, DetOk ops .lab p.details) (hEl : ElemsOk ops .lab Pl elems) :
+    ∃ pc pl Rc Rl wc wl, buildPools .cap Pc = .ok pc ∧ buildPools .lab Pl = .ok pl ∧
+      generate ops pc = .ok Rc ∧ generate ops pl = .ok Rl ∧
+      singleDelegation ops did elems pl pc = .ok [(.cap, wc), (.lab, wl)] ∧
+      readAll ops .cap wc = .ok (Rc ++ elems.filterMap (collected .cap did)) ∧
+      readAll ops .lab wl = .ok (Rl ++ elems.filterMap (collected .lab did)) := by
+  obtain ⟨pc, Rc, wc, hbc, hgc, hsc, hac, hrc, _⟩ := single_delegation_readback ops .cap did Pc elems hFc hNc hTc hEc
+  obtain ⟨pl, Rl, wl, hbl, hgl, hsl, hal, hrl, _⟩ := single_delegation_readback ops .lab did Pl elems hFl hNl hTl hEl
+  have htc : pc.ty = .cap := by
+    obtain ⟨idx, hb', _, _⟩ := buildPools_ok ops .cap Pc hFc
+    rw [hbc] at hb'; injection hb' with hb'; rw [hb']
+  have htl : pl.ty = .lab := by
+    obtain ⟨idx, hb', _, _⟩ := buildPools_ok ops .lab Pl hFl
+    rw [hbl] at hb'; injection hb' with hb'; rw [hb']
+  refine ⟨pc, pl, Rc, Rl, wc, wl, hbc, hbl, hgc, hgl, ?_, hrc, hrl⟩
+  simp [singleDelegation, htc, htl, hsc, hac, hsl, hal, bind, Except.bind, pure, Except.pure]
+
+/-- non-vacuity of `ElemsOk`: a worker with labels of its own, a stitch switch port that is a pool node -/
+example : ElemsOk detOps .lab poolsEx
+    [{ node := "w1", stitch := false, caps := none, labs := some labEx },
+     { node := "node1", stitch := true, caps := none, labs := none },
+     { node := "w2", stitch := false, caps := some capEx, labs := none }] := by
+  refine ⟨by decide, ?_, ?_⟩
+  · intro e he x hx
+    simp only [List.mem_cons, List.not_mem_nil, or_false] at he
+    rcases he with rfl | rfl | rfl <;> simp [Elem.own] at hx
+    subst hx; exact det_roundtrip.2
+  · intro e he hst hown p hp
+    simp only [List.mem_cons, List.not_mem_nil, or_false] at he
+    simp only [poolsEx, List.mem_cons, List.not_mem_nil, or_false] at hp
+    rcases he with rfl | rfl | rfl
+    · rcases hp with rfl | rfl <;> exact ⟨by decide, by decide⟩
+    · cases hst
+    · simp [Elem.own] at hown
+
+/-- non-vacuity of `annotate_readback`: the two pools of `testPools` and two elements with capacities of their own -/
+def singlesEx : NodeDelegs Det :=
+  [("w1", { ty := .lab, items := [{ ty := .lab, id := "primary", fmt := .single, pool := none, details := some labEx }] }),
+   ("w1-nic", { ty := .lab, items := [{ ty := .lab, id := "primary", fmt := .single, pool := none, details := some labEx }] })]
+
+example : ∀ e ∈ singlesEx, WF detOps e.2 := by
+  intro e he
+  simp only [singlesEx, List.mem_cons, List.not_mem_nil, or_false] at he
+  rcases he with rfl | rfl <;> refine ⟨fun d hd => ?_, by simp⟩ <;>
+    (simp only [List.mem_singleton] at hd; subst hd; exact ⟨rfl, rfl, det_roundtrip.2⟩)
+
+example : SinglesOk .lab poolsEx singlesEx := by
+  refine ⟨?_, ?_, by decide, ?_⟩ <;> simp only [singlesEx]
+  · intro e he
+    simp only [List.mem_cons, List.not_mem_nil, or_false] at he
+    rcases he with rfl | rfl <;> rfl
+  · intro e he d hd
+    simp only [List.mem_cons, List.not_mem_nil, or_false] at he
+    rcases he with rfl | rfl <;> (simp only [List.mem_singleton] at hd; subst hd; rfl)
+  · intro e he p hp
+    simp only [List.mem_cons, List.not_mem_nil, or_false] at he
+    simp only [poolsEx, List.mem_cons, List.not_mem_nil, or_false] at hp
+    rcases he with rfl | rfl <;> rcases hp with rfl | rfl <;> exact ⟨by decide, by decide⟩
+
 /-! ## Real details: `Capacities` / `Labels` as modelled and proved lossless by C03
 
 `cOps valid` is the C03 codec on the regenerated class specifications (`valid` = the label validators, abstract).
@@ -632,6 +843,18 @@ theorem pools_roundtrip_text_real (valid : String → CVal → Bool) (ty : DType
   rw [hb] at hb'; injection hb' with hb'; subst hb'
   rw [hg] at hg'; injection hg' with hg'; subst hg'
   exact ⟨ps, R, hb, hg, hinv, hperm, hall⟩
+
+/-- **onto the model and back for real details, no codec hypothesis** -/
+theorem annotate_readback_real (valid : String → CVal → Bool) (ty : DType) (P : List (Pool CDet)) (dels : NodeDelegs CDet)
+    (hF : RealFamily valid ty P) (hN : NoClash P) (hS : SinglesOk ty P dels) (hW : ∀ e ∈ dels, RealSet valid e.2) :
+    ∃ ps R w, buildPools ty P = .ok ps ∧ generate (cOps valid) ps = .ok R ∧ annotate (cOps valid) ps dels = .ok (ty, w) ∧
+      readAll (cOps valid) ty w = .ok (R ++ dels) ∧
+      ∀ R', R'.Perm (R ++ dels) → ∃ Q, incorporateAll (emptyPools ty) R' = .ok Q ∧ Q.ty = ty ∧ SamePools P Q.byId := by
+  have hT : ∀ p ∈ P, DetOk (cOps valid) ty p.details := by
+    intro p hp
+    obtain ⟨x, hx, hr⟩ := hF.details p hp
+    rw [hx]; exact detOk_real valid ty x hr
+  exact annotate_readback (cOps valid) ty P dels hF.family hN hT hS (fun e he => realSet_wf valid e.2 (hW e he))
 
 /-! non-vacuity of the `_real` theorems: `Capacities(core=2, ram=8)`, `Labels(vlan_range='1-100')` as C03 values -/
 
